@@ -176,21 +176,27 @@ namespace bloch::runtime {
         // "measure q, discard the outcome, flip q if it was 1". Projecting onto the |...0>
         // subspace alone would post-select and change the statistics of entangled partners.
         size_t bit = size_t{1} << q;
+        double p0 = 0;
         double p1 = 0;
-        for (size_t i = 0; i < m_state.size(); ++i)
+        for (size_t i = 0; i < m_state.size(); ++i) {
             if (i & bit)
                 p1 += std::norm(m_state[i]);
+            else
+                p0 += std::norm(m_state[i]);
+        }
         std::uniform_real_distribution<double> dist(0.0, 1.0);
         double r = dist(rng);
 #ifdef BLOCH_VERIF
         if (g_verifDraw)
             r = g_verifDraw();
 #endif
-        int res = r < p1 ? 1 : 0;
+        // Sample against the actual total weight and renormalise by the selected branch's own
+        // weight, so rounding drift in the norm can never select a branch of zero weight.
+        int res = r * (p0 + p1) < p1 ? 1 : 0;
 #ifdef BLOCH_VERIF
         m_verifOutcomes.push_back({'r', q, res, p1, r});
 #endif
-        double norm = std::sqrt(res ? p1 : 1 - p1);
+        double norm = std::sqrt(res ? p1 : p0);
         for (size_t i = 0; i < m_state.size(); ++i) {
             if (((i & bit) ? 1 : 0) != res)
                 m_state[i] = 0;
@@ -215,21 +221,27 @@ namespace bloch::runtime {
         ensureQubitActive(q);
         // Compute probability of |1>, sample, and collapse the state accordingly.
         size_t bit = size_t{1} << q;
+        double p0 = 0;
         double p1 = 0;
-        for (size_t i = 0; i < m_state.size(); ++i)
+        for (size_t i = 0; i < m_state.size(); ++i) {
             if (i & bit)
                 p1 += std::norm(m_state[i]);
+            else
+                p0 += std::norm(m_state[i]);
+        }
         std::uniform_real_distribution<double> dist(0.0, 1.0);
         double r = dist(rng);
 #ifdef BLOCH_VERIF
         if (g_verifDraw)
             r = g_verifDraw();
 #endif
-        int res = r < p1 ? 1 : 0;
+        // Sample against the actual total weight and renormalise by the selected branch's own
+        // weight, so rounding drift in the norm can never select a branch of zero weight.
+        int res = r * (p0 + p1) < p1 ? 1 : 0;
 #ifdef BLOCH_VERIF
         m_verifOutcomes.push_back({'m', q, res, p1, r});
 #endif
-        double norm = std::sqrt(res ? p1 : 1 - p1);
+        double norm = std::sqrt(res ? p1 : p0);
         for (size_t i = 0; i < m_state.size(); ++i) {
             if (((i & bit) ? 1 : 0) != res)
                 m_state[i] = 0;
